@@ -209,8 +209,8 @@ def gc_module_g():
 SCENARIOS = [('declared-mixed-exported', gc_module_g), ('dead-table-global-offset', gc_module_f), ('dead-nested-blocks', gc_module_e), ('all-kinds', gc_module_a), ('late-table', gc_module_b), ('mixed-declared-extern-data', gc_module_c), ('only-export', gc_module_d)]
 
 
-def keep_sets(spec):
-    used, nimp = gcref.reachable(spec)
+def keep_sets(spec, declared_roots=True):
+    used, nimp = gcref.reachable(spec, declared_roots)
     keep = {k: set(v) for k, v in used.items()}
     # tolerated residue: one memory kept only so that retained data segments stay acceptable to third-party tools
     residue = None
@@ -241,6 +241,7 @@ def run_gc_scenario(ctx, report, pid, name, spec, timeout_ms, table):
         for s, e in errs:
             vios.append(('C06', {'key': 'parse.rejects', 'what': '[%s] parse rejects the description' % name, 'spec': spec, 'model': None, 'pc': list(s.pc)}))
         keep, residue = keep_sets(spec)
+        keep_min, residue_min = keep_sets(spec, declared_roots=False)
         IN = modcmp.in_module(spec)
         n = 0
         for s, module in oks:
@@ -265,48 +266,62 @@ def run_gc_scenario(ctx, report, pid, name, spec, timeout_ms, table):
                             continue
                         n += 1
                         OUT = modcmp.out_module(rec)
-                        k2 = {k: set(v) for k, v in keep.items()}
-                        if residue is not None and (len(OUT['memories']) + sum(1 for i in OUT['imports'] if i['kind'] == 'memory')) == 1:
-                            k2['memory'].add(residue)
-                        C, pi = modcmp.compare_structure(spec, IN, OUT, spec.func_tags, keep=k2)
-                        # bodies of kept functions
-                        nimp = sum(1 for i in spec.imports if i['kind'] == 'func')
-                        types = [(tuple(p), tuple(r)) for p, r in spec.types]
-                        for k, f in enumerate(spec.funcs):
-                            j = pi['func'].get(nimp + k)
-                            if j is None or nimp + k not in k2['func']:
-                                continue
-                            B = bodycmp.BodyCmp(table, pi, C)
-                            nimp_out = sum(1 for i in OUT['imports'] if i['kind'] == 'func')
-                            if 0 <= j - nimp_out < len(OUT['code']):
-                                B.compare(spec.func_tags[k], f['ops'], OUT['code'][j - nimp_out]['instrs'], types)
-                        # names of kept data/elements/functions must follow the renumbering (emit-time index map)
-                        if spec.names and OUT['names'] is not None:
-                            for sub, kind in (('functions', 'func'), ('elements', 'element'), ('data', 'data')):
-                                exp = {pi[kind][i]: modcmp.tok(nm) for i, nm in spec.names.get(sub, {}).items() if i in k2[kind] and pi[kind].get(i) is not None}
-                                got = OUT['names'].get(sub, {}) or {}
-                                if exp != got:
-                                    C.bad.append(('names.' + sub, '%s names after gc: expected %r, emitted %r' % (sub, exp, got)))
-                        for key, what in C.bad:
-                            count_more = key.endswith('.count') and _more(what)
-                            prop = 'C07' if (key in ('types.extra', 'funcs.extra') or count_more) else 'C06'
-                            if len(steps) == 3:
-                                prop = 'C07'
-                                key = 'gc-twice:' + key
-                            vios.append((prop, {'key': key, 'what': '[%s after %s] %s' % (name, '+'.join(steps[:-1]), what), 'spec': spec, 'model': None, 'pc': list(s2.pc), 'steps': steps,
-                                                'native_check': native_gc(steps)}))
-                        for key, what, cond in C.todo:
-                            sol = z3.Solver()
-                            sol.set('timeout', timeout_ms)
-                            sol.add(*s2.pc)
-                            sol.add(cond)
-                            report.queries += 1
-                            r = sol.check()
-                            if r == z3.unknown:
-                                raise Inconclusive('solver timeout')
-                            common.cross_check(sol, r)
-                            if r == z3.sat:
-                                vios.append(('C06', {'key': key, 'what': '[%s] %s not preserved' % (name, what), 'spec': spec, 'model': sol.model(), 'steps': steps}))
+                        def compare(keep_, residue_):
+                            vios = []
+                            k2 = {k: set(v) for k, v in keep_.items()}
+                            if residue_ is not None and (len(OUT['memories']) + sum(1 for i in OUT['imports'] if i['kind'] == 'memory')) == 1:
+                                k2['memory'].add(residue_)
+                            C, pi = modcmp.compare_structure(spec, IN, OUT, spec.func_tags, keep=k2)
+                            # bodies of kept functions
+                            nimp = sum(1 for i in spec.imports if i['kind'] == 'func')
+                            types = [(tuple(p), tuple(r)) for p, r in spec.types]
+                            for k, f in enumerate(spec.funcs):
+                                j = pi['func'].get(nimp + k)
+                                if j is None or nimp + k not in k2['func']:
+                                    continue
+                                B = bodycmp.BodyCmp(table, pi, C)
+                                nimp_out = sum(1 for i in OUT['imports'] if i['kind'] == 'func')
+                                if 0 <= j - nimp_out < len(OUT['code']):
+                                    B.compare(spec.func_tags[k], f['ops'], OUT['code'][j - nimp_out]['instrs'], types)
+                            # names of kept data/elements/functions must follow the renumbering (emit-time index map)
+                            if spec.names and OUT['names'] is not None:
+                                for sub, kind in (('functions', 'func'), ('elements', 'element'), ('data', 'data')):
+                                    exp = {pi[kind][i]: modcmp.tok(nm) for i, nm in spec.names.get(sub, {}).items() if i in k2[kind] and pi[kind].get(i) is not None}
+                                    got = OUT['names'].get(sub, {}) or {}
+                                    if exp != got:
+                                        C.bad.append(('names.' + sub, '%s names after gc: expected %r, emitted %r' % (sub, exp, got)))
+                            for key, what in C.bad:
+                                count_more = key.endswith('.count') and _more(what)
+                                prop = 'C07' if (key in ('types.extra', 'funcs.extra') or count_more) else 'C06'
+                                if len(steps) == 3:
+                                    prop = 'C07'
+                                    key = 'gc-twice:' + key
+                                vios.append((prop, {'key': key, 'what': '[%s after %s] %s' % (name, '+'.join(steps[:-1]), what), 'spec': spec, 'model': None, 'pc': list(s2.pc), 'steps': steps,
+                                                    'native_check': native_gc(steps)}))
+                            for key, what, cond in C.todo:
+                                sol = z3.Solver()
+                                sol.set('timeout', timeout_ms)
+                                sol.add(*s2.pc)
+                                sol.add(cond)
+                                report.queries += 1
+                                r = sol.check()
+                                if r == z3.unknown:
+                                    raise Inconclusive('solver timeout')
+                                common.cross_check(sol, r)
+                                if r == z3.sat:
+                                    vios.append(('C06', {'key': key, 'what': '[%s] %s not preserved' % (name, what), 'spec': spec, 'model': sol.model(), 'steps': steps}))
+
+                            return vios
+                        v1 = compare(keep, residue)
+                        if v1 and keep_min != keep:
+                            # declared segments have no run-time effect: a GC that drops the ones nothing needs is just as good
+                            try:
+                                v2 = compare(keep_min, residue_min)
+                            except modcmp.Mismatch:
+                                v2 = [None]
+                            if not v2:
+                                v1 = []
+                        vios += v1
         mine = [v for p, v in vios if p == pid]
         ob.detail = '%d emit paths; reference keep-set sizes %r' % (n, {k: len(v) for k, v in keep.items()})
         if n == 0 and not mine:
